@@ -57,7 +57,7 @@ def env_falsy():
 
 VALUES: list[Any] = [
     0, 1, -1, 2, 0.0, 1.0, 1.5, Decimal("1"), Decimal("1.5"), True, False, None,
-    "", " ", "a", "b", "1", "abc", "true",
+    "", " ", "a", "b", "1", "abc", "true", "v1.5", "x1.0y-1", "it is true", "True 1.5e0",
     [], [1], [1, 2], ["a"], [True], [None], {}, {"a": 1}, {"1": 1}, range(1, 3), range(0),
 ]
 OPERANDS: list[dict[str, Any]] = [{"t": "val", "v": V.enc(v)} for v in VALUES] + [{"t": "undef"}, {"t": "empty"}, {"t": "blank"}]
